@@ -203,11 +203,14 @@ CLAIMS["C15"] = {
     "category": "other",
     "technique": "abstract interpretation of every benchmark evaluate() in an outward-rounded interval domain with affine forms; configuration folded from set(); interval branch-and-bound over the declared box (16 processes)",
     "text": "For each of the 23 single-objective benchmark classes the box, criteria, documented optimum and coordinates are folded from the "
-            "literals of set(), and evaluate() is interpreted over interval boxes (never on sample points of the box): the root box and every "
+            "literals of set(), and evaluate() is interpreted over interval boxes (abstractly, by the checker's own interpreter): the root box and every "
             "visited sub-box must be free of possible domain errors and float-incompatible method calls; the enclosure on the degenerate box "
             "of the documented coordinates must lie within 1e-3 of the documented value (n in {1,2,3,5,10} where accepted); and a best-first "
-            "interval branch-and-bound proves f >= f* - 1e-3 (<= for maximised) on the whole box at n=2 (thorough: n in {1,2,3}). A sub-box "
-            "whose entire enclosure beats the optimum is a definite violation reported with its coordinates; sub-boxes still undecided when "
+            "interval branch-and-bound proves f >= f* - 1e-3 (<= for maximised) on the whole box at n=2 (plus every dimension up to 5 that has its "
+            "own documented value; thorough: n in {1,2,3,5}). A sub-box whose entire enclosure beats the optimum is a definite violation reported "
+            "with its coordinates; so is a corner of the box or the centre of a visited sub-box, taken as a degenerate box, whose enclosure beats "
+            "it (a point of the declared box). A structural rule flags integer-array powers that wrap around in high dimensions, another one "
+            "per-instance state kept in class-level containers. Sub-boxes still undecided when "
             "the budget ends are counted in the evidence and never alarm. Unlike the tests (one point per function) a proved bound covers "
             "every point of the box. Known findings: EqualityConstr (float method, bound), ModifiedEasom for odd n (documented value).",
     "note": "Trusts: libm within a few ulps (enclosures widened), IEEE double arithmetic; Schwefel, Six-hump and Shubert are only partly proved "
